@@ -4,8 +4,14 @@ Trace == ndJsonDeserialize("obs.ndjson")
 VARIABLES l, bad
 tvars == <<l, bad, have, rows, hist>>
 TInit == l = 1 /\ bad = <<>> /\ have = {} /\ rows = {} /\ hist = <<>>
+MigHEv ==
+  /\ l <= Len(Trace) /\ Trace[l].ev = "MigH"
+  /\ LET e == Trace[l]  k == HistOK(e) IN
+       bad' = IF k = 0 THEN bad
+              ELSE Append(bad, [i |-> l, case |-> e.case, setup |-> TRUE, idem |-> TRUE, add |-> FALSE, data |-> TRUE, accept |-> TRUE, shape |-> TRUE])
+  /\ l' = l + 1 /\ UNCHANGED <<have, rows, hist>>
 MigEv ==
-  /\ l <= Len(Trace)
+  /\ l <= Len(Trace) /\ Trace[l].ev = "Mig"
   /\ LET e == Trace[l]  h == HistoryOK(e) IN
        bad' = IF h.setup /\ h.idem /\ h.add /\ h.data /\ h.accept /\ h.shape THEN bad
               ELSE Append(bad, [i |-> l, case |-> e.case, setup |-> h.setup, idem |-> h.idem, add |-> h.add, data |-> h.data, accept |-> h.accept, shape |-> h.shape])
@@ -14,5 +20,5 @@ Finish ==
   /\ l = Len(Trace) + 1
   /\ ndJsonSerialize("verdict.ndjson", <<[n |-> Len(Trace), bad |-> bad]>>)
   /\ l' = l + 1 /\ UNCHANGED <<bad, have, rows, hist>>
-TraceSpec == TInit /\ [][MigEv \/ Finish]_tvars
+TraceSpec == TInit /\ [][MigEv \/ MigHEv \/ Finish]_tvars
 =============================================================================
